@@ -79,6 +79,8 @@ class ContainerCalls:
                 length = Length(None, max(s.length.lo - 1, 0), max(s.length.hi - 1, 0))
             elif name == "remove":
                 length = Length(None, max(s.length.lo - 1, 0), s.length.hi)
+                if args and I.value_equal_operand(args[0], state):
+                    I.event("valeq-lookup", node, how=name)
             else:
                 length = s.length
             fixed = None
@@ -116,7 +118,12 @@ class ContainerCalls:
             return I.new_list_from_seq(state, I.list_seq(state, recv), node, "list.copy")
         if name in ("index", "count"):
             s = I.list_seq(state, recv)
-            return Num(kinds=INT, rng=Interval(0.0, s.length.hi, False, s.length.hi == INF), deg=F0)
+            pv = frozenset()
+            if args and I.value_equal_operand(args[0], state):
+                # the position / count is found with the elements' value equality
+                I.event("valeq-lookup", node, how=name)
+                pv = frozenset({"VALEQ"})
+            return Num(kinds=INT, rng=Interval(0.0, s.length.hi, False, s.length.hi == INF), deg=F0, prov=pv)
         if name in ("__len__",):
             return self.b_len([recv], {}, node, state)
         I.note_undecided(f"list.{name} not modelled", node)
